@@ -35,6 +35,7 @@ pub const PROFILES: &[Profile] = &[
     Profile { name: "C12", mode: Mode::Plain, want_snaps: false },
     Profile { name: "C13", mode: Mode::Plain, want_snaps: true },
     Profile { name: "C14", mode: Mode::Plain, want_snaps: false },
+    Profile { name: "C15", mode: Mode::Plain, want_snaps: false },
     Profile { name: "C16", mode: Mode::AbortEnum, want_snaps: false },
 ];
 
@@ -274,6 +275,18 @@ pub fn knobs(profile: &str, thorough: bool, rng: &mut Rng) -> Knobs {
             kn.walk_len = rng.below(10);
             kn.drain = true;
         }
+        "C15" => {
+            // small-history side of C15: groups of every shape, few bystanders
+            if kn.shape == 0 {
+                kn.shape = 1 + rng.below(10) as u32;
+            }
+            kn.shape_objs = 2 + rng.below(if thorough { 9 } else { 6 });
+            kn.max_objs = kn.shape_objs + rng.below(2);
+            kn.max_mult = 1 + rng.below(3);
+            kn.walk_len = rng.below(10);
+            kn.drain = true;
+            with_selfsame(rng, &mut kn);
+        }
         "C16" => {
             if rng.chance(1, 4) {
                 recording_discipline(rng, &mut kn);
@@ -372,6 +385,7 @@ pub fn nontrivial(profile: &str, d: &[u64; NSTATS]) -> bool {
         "C12" => g(St::f_consuming_on_adopted) > 0,
         "C13" => g(St::f_elided_unadopt) > 0,
         "C14" => g(St::p_c14_checked_calls) > 0 && g(St::op_store_adopt) > 0,
+        "C15" => g(St::p_path_cycle) > 0 && g(St::p_c15_visit_checks) > 0,
         "C16" => g(St::f_dead_handle_clone_in_dtor) + g(St::f_dead_handle_drop_in_dtor) > 0,
         _ => false,
     }
